@@ -89,6 +89,13 @@ def r02_10(run):
     borrow(run, c01.r01_8, 'R02.10')
 
 
+def r02_12(run):
+    """a command queued from an event listener (SETEVENTS after a listener removed itself, anything a listener asks for) goes out
+    like any other: queue_command attempts the issue on every path, whatever state the line machine is in (rule R01.3, shared) -
+    after an event nothing else would issue it, the end-of-reply handling returns early for 6xx"""
+    borrow(run, c01.r01_3, 'R02.12')
+
+
 def r02_11(run):
     """delivery is the last thing _handle_notify does with the listener table: a listener may remove the last listener of its
     event (itself) during delivery, which deletes self.events[name] - any use of that entry after got_update() raises KeyError out
@@ -361,6 +368,7 @@ RULES = [
     ('R02.8', 'listener removal removes the given callback by equality (no identity test on callbacks)', r02_8),
     ('R02.9', 'framing: every received line reaches the machine once (R01.7 borrowed)', r02_9),
     ('R02.10', 'every line of an event reaches the dispatched text exactly once, independent of the subscriptions at that moment (R01.8 borrowed)', r02_10),
+    ('R02.12', 'a command queued while an event is being received or delivered is still issued (R01.3 borrowed)', r02_12),
     ('R02.11', 'no use of self.events[name] after the delivery in _handle_notify (the entry may be gone)', r02_11),
     ('R02.6', 'events dispatched only via self.events[name] under membership guard, only from _handle_notify', r02_6),
 ]
